@@ -73,7 +73,8 @@ def gen_source(rng):
             extra += ["edge_nodes", rng.choice(["edge_lonlat", "edge_xyz"])]
         spec["dialect"] = {"lon360": rng.random() < 0.3, "extra": extra, "start": rng.choice([0, 1]), "xyz_scale": rng.choice([1.0, 1.0, 2.0])}
     elif r < 0.75:
-        spec["prov"] = rng.choice(["vertices", "vertices_xyz"])
+        spec["prov"] = rng.choice(["vertices", "vertices_xyz", "vertices_xyz"])
+        spec["dialect"] = {"xyz_scale": rng.choice([1.0, 1.0, 0.5, 2.0, 6371.0])}
     elif r < 0.9:
         spec["prov"] = "ugrid_mem"
         spec["dialect"] = {"lon360": rng.random() < 0.5, "start": rng.choice([0, 1])}
